@@ -165,7 +165,12 @@ where
         match timer {
             TimerWrapper::Network => {
                 o.set_timer(TimerWrapper::Network, self.resend_interval.clone());
-                for ((dst, seq), msg) in &state.msgs_pending_ack {
+                // Resend in a reproducible order (by destination, then sequencer): the iteration
+                // order of the hash map differs between two equal states, and on an ordered network
+                // the order of the sends is part of the next state.
+                let mut pending: Vec<_> = state.msgs_pending_ack.iter().collect();
+                pending.sort_by_key(|((dst, seq), _)| (*dst, *seq));
+                for ((dst, seq), msg) in pending {
                     o.send(*dst, MsgWrapper::Deliver(*seq, msg.clone()));
                 }
             }
